@@ -71,9 +71,8 @@ def check_pvfw(ctx, fb, cfg, fn, ctr, H=H, opq=r"^rln::hashers::poseidon_hash$")
             return False
         if t[0] == "bin" and t[1] in ("Ne", "Eq") and set(t[2:]) == {("len", F(W, "path_elements")), ("len", F(W, "identity_path_index"))}:
             return (t[1] == "Ne") == (v is False)
-        if t[0] == "call" and t[1].endswith("Iterator>::any") or (t[0] == "call" and t[1].endswith("::any")):
-            return v is False and t[2][0] == F(W, "identity_path_index") and t[2][1][0] == "closure" and "merkle_path_shape_check" in t[2][1][1]
-        return False
+        # "every direction value is 0 or 1", whichever way it is spelled (any(> 1) false, all(matches 0 | 1) true, ...)
+        return any(seq == F(W, "identity_path_index") and allowed == {0, 1} for seq, allowed, _ in forall_u8(fb, [(a, v)]))
     extra = [(a, v) for a, v in p.conds() if not (a[0] == "b" and a[1][0] == "cmp" and set(a[1][2:]) == {F(W, "message_id"), F(W, "user_message_limit")}) and not shape_guard(a, v)]
     if extra:
         ctx.fail("R04-1", inst, "success path is conditioned on %s besides the message-id range guard" % [(sh(a, 100), v) for a, v in extra], loc(it))
